@@ -12,7 +12,8 @@ def gen_case(rng, **kw):
                         exotic=kw.get("exotic", 0.0))
     tree = tg.tree()
     r = layout.Renderer(rng, layout=kw.get("layout", rng.choice([0.0, 0.5, 1.0, 1.0])),
-                        comment_quotes=kw.get("comment_quotes", False), off_regions=kw.get("off_regions", True), exotic=kw.get("exotic", 0.0))
+                        comment_quotes=kw.get("comment_quotes", False), off_regions=kw.get("off_regions", True), exotic=kw.get("exotic", 0.0),
+                        spread=kw.get("spread", 0.0))
     text = r.render(tree)
     return tree, text, sorted(r.features)
 
